@@ -96,7 +96,10 @@ def accessesShown (c : Ctx S) : Bool :=
   c.stalled || (List.range c.n).all (fun i => !(c.accs false i).isEmpty && !(c.accs true i).isEmpty)
 
 def oJson (c : Ctx S) : Json :=
-  Json.mkObj ((simClauses c).map (fun (id, cl) => (id, match cl.firstFail with
+  Json.mkObj ((simClauses c).map (fun (id, cl0) =>
+    -- C06 also on the stall path (`Spec.C06Stall`, theorem `C06_stall_held_back`)
+    let cl := if id == "C06" then cl0 ++ C06Stall c else cl0
+    (id, match cl.firstFail with
     | none => if id == "C01" && !accessesShown c
               then Json.str "every instruction of a returned diagram is shown performing its read and its write access"
               else Json.null
